@@ -10,9 +10,9 @@ CONSTANTS
   MaxObjs = 6
   MaxEvents = 4
   KF_DefaultsNotHashed = FALSE
-  KF_AdoptCached = TRUE
+  KF_AdoptCached = FALSE
   KF_AliasBlind = FALSE
-  KF_OneRulePerKey = FALSE
+  KF_OneRulePerKey = TRUE
 INIT Init
 NEXT Next
 INVARIANT Coherent
